@@ -10,7 +10,9 @@ META = {
             'for every schedule of the interleaving model (SingleThreadExecutor = schedule pick_seq, ParallelForExecutor = wave mode, '
             'ConcurrentTaskSetExecutor = eager mode with inline continuation) no node runs twice, only incomplete nodes run, a node starts only after '
             'all its incomplete predecessors finished, executed nodes end complete, complete nodes stay untouched; at quiescence (acyclic graph) every '
-            'incomplete node ran exactly once; no deadlock.  The statement as written in the property (any graph built by addNode/dependsOn/subgraph ops) '
+            'incomplete node ran exactly once; no deadlock, and at most 4|nodes|+2|edges| steps take effect under any schedule (termination).  setAllNodesIncomplete prepares every well-formed graph; addNode/dependsOn/biPropDependsOn/'
+            'addSubgraph and Subgraph::clear (swap-remove edge surgery with budget and early return) keep graphs well-formed (no dependents_ entry '
+            'for a destroyed node, numPredecessors_ = occurrences).  The statement as written in the property (any graph built by addNode/dependsOn/subgraph ops) '
             'is REFUTED (C30_refuted): a freshly built graph has all counters 0 and is executed ignoring its dependencies; reproduced on the real code.',
     'note': 'Trusted: Coq kernel; harness/h_graph.cpp (reads private members through #define private public); python case generator. No axioms.',
 }
@@ -19,7 +21,7 @@ ASSUMPTIONS = [
     'graphs are acyclic (precondition stated by graph.h); the acyclicity witness is a rank function',
     'the interleaving model over-approximates the thread pool: every task (evaluateNodeConcurrently invocation / parallel_for index) is a thread of its own, '
     'atomic steps = the individual atomic loads/stores/fetch_subs; the functor\'s finish event and run()\'s store of kCompleted are one step',
-    'termination of the schedule is not proved (progress + the statement at quiescence are)',
+    'graphs have fewer than 2^64-1 edges (small_graph: the size_t budget in Subgraph::clear does not wrap)',
     'parallel executors: the correspondence checks the implementation\'s log against the DAG and compares the executed set / final counters with the model under one '
     'model schedule; the implementation\'s own interleaving is not replayed in lockstep',
 ]
@@ -29,7 +31,7 @@ KEY = 'fresh-graph-ignores-dependencies'
 
 def run(ctx):
     ctx.prove(models=['Model/GraphLits.v', 'Model/C30Check.v', 'Model/C31Check.v'])
-    n = 260 if ctx.quick else 4000
+    n = 150 if ctx.quick else 4000
     res = gc.correspond(ctx, 'C30', 'exec', n, [gc.FRESH_WITNESS])
     hist = {}
     distinct = set()
